@@ -89,7 +89,8 @@ CLAIMED["C06"] = (
     "Ok/Err, len(), is_empty(), full content and arbitrary read windows; the memory-mapped variant's file copy is also "
     "compared with its memory copy.",
     "Contract domain: writes start at or before the end (what Storage issues; checked by the C04 harnesses), reads inside "
-    "the content. File-backed variants run over the model file system. Quick tier: 1 call per variant; thorough: 2 calls. "
+    "the content. File-backed variants run over the model file system. Quick tier: 1 symbolic call per variant plus the "
+    "two-call shape shrink-then-grow for the three base variants; thorough: 2 fully symbolic calls. "
     "Outside: the step from equal StorageData behaviour to equal query results is the determinism argument, not executed; "
     "backup/copy/rename (real file system calls).",
     "DESIGN.md §4 C06",
@@ -293,8 +294,10 @@ CLAIMED["C22"] = (
     "The code generated by #[derive(DbType / DbElement / DbValue / DbTypeMarker)] for a corpus of user types in the "
     "harness (i64, u64, f64, bool, String, Option<i64>, db_id as Option<DbId> / Option<QueryId> / DbId, a nested custom "
     "value type, flatten/rename/skip attributes): T::from_db_element(DbElement{id, values: t.to_db_values()}) == t for "
-    "symbolic field values, db_keys() are the field names in declaration order, None options are omitted and restored, "
-    "db_id is taken from the element id and never stored, derive(DbElement) adds the type name.",
+    "symbolic field values, db_keys() are the field names in declaration order, None options are omitted and restored "
+    "(also for a field that is both renamed and optional), db_id is taken from the element id and never stored, "
+    "derive(DbElement) adds the type name; the scalar conversions the generated code relies on (f32 for all 2^32 bit "
+    "patterns, i64, u64) are lossless.",
     "<DbValue as Clone>::clone is replaced by a bitwise copy in the from_db_element harnesses (the derived Clone over nine "
     "variants exhausts memory; the harnesses never look at the source after the copy). Outside: the trip through the "
     "database (insert().element()/select().elements(), update by id) -- DbImpl; from_db_element for vector and "
